@@ -48,6 +48,7 @@ type callScript struct {
 	ctl    string
 	start  int
 	plan   []planStep
+	lens   []int // lengths for this call's successive wrong-length datagrams (hand-made length scripts); else drawn from the seed
 	strays []strayStep
 	// expectation of the specification's own behaviour (informational: the verdict is trace validation)
 	expKind string
@@ -93,6 +94,11 @@ func loadScript(path string) (*script, error) {
 			for _, p := range r["plan"].([]any) {
 				pp := p.([]any)
 				c.plan = append(c.plan, planStep{pp[0].(string), int(pp[1].(float64))})
+			}
+			if ls, ok := r["lens"].([]any); ok {
+				for _, x := range ls {
+					c.lens = append(c.lens, int(x.(float64)))
+				}
 			}
 		case "Stray":
 			c.strays = append(c.strays, strayStep{r["cls"].(string), int(r["rel"].(float64))})
@@ -275,8 +281,12 @@ func (f *farm) datagram(c *callScript, cls string) []byte {
 		copy(m[4:8], []byte{0, 0, 0, 0})
 	case "badlen":
 		n := []int{1, 63, 65, 128, 1024, 0}[f.rng.Intn(6)]
+		if len(c.lens) > 0 {
+			n = c.lens[0]
+			c.lens = c.lens[1:]
+		}
 		if c.path == "tcp" && n == 0 {
-			n = 32
+			n = 32 // a TCP peer cannot send an empty segment
 		}
 		if n <= 64 {
 			m = m[:n]
